@@ -368,6 +368,81 @@ theorem C01_old_eq_new_of_finite (c : Cfg)
 
 /-! ### the model's bookkeeping: the result slices keep their length -/
 
+/-! ### Stale entries of the reused result slices (multi-round histories)
+
+`Run` allocates `refClkOffsets` / `peerClkOffsets` once; a source that fails or is late in a round
+leaves its slot as an earlier round left it, and `FaultTolerantMidpoint` is taken over the WHOLE
+slice. So a failed source keeps voting with an old value. The three statements below say exactly
+what that can and cannot do. -/
+
+/-- WHAT the fault-tolerant midpoint of a round is taken over: this round's in-time successes
+    followed by the tail `ms[k:]` of the slice as the previous round left it (sorted by that
+    round), `k` = number of successes — for every slice content and every list of successes. -/
+theorem C01_stale_ftm_input (ms succ : List Int64) (hne : ms ≠ []) (hk : succ.length ≤ ms.length) :
+    (Sync.measure ms succ).1 = sortOffsets (succ ++ ms.drop succ.length) ∧
+    (Sync.measure ms succ).2 = ftmSorted (sortOffsets (succ ++ ms.drop succ.length)) := by
+  have he : ms.isEmpty = false := by cases ms with
+    | nil => exact absurd rfl hne
+    | cons a as => rfl
+  unfold Sync.measure collect
+  simp only [he, Bool.false_eq_true, if_false, List.take_of_length_le hk, and_self]
+
+/-- … and when every source of the side answers in time the old content is gone: the round's value
+    depends on this round's answers only. -/
+theorem C01_no_stale_when_all_answer (ms ms' succ : List Int64) (h : succ.length = ms.length)
+    (h' : ms'.length = ms.length) : Sync.measure ms succ = Sync.measure ms' succ := by
+  have hc : ∀ m : List Int64, m.length = succ.length → collect m succ = succ := by
+    intro m hm
+    unfold collect
+    simp [hm]
+  have e1 : ms.isEmpty = ms'.isEmpty := by
+    cases ms <;> cases ms' <;> simp_all
+  unfold Sync.measure
+  rw [hc ms h.symm, hc ms' (h'.trans h.symm), e1]
+  cases ms' with
+  | nil =>
+    have : ms = [] := by cases ms with
+      | nil => rfl
+      | cons a as => simp at h'
+    subst this; rfl
+  | cons a as => rfl
+
+/-- A STALE ENTRY CAN CHANGE THE CORRECTION: same configuration (the defaults), same answers in
+    this round (one of the two reference clocks answers 4 µs, the other fails), but the failed
+    clock's slot still holds 0 in one history and 12 µs in the other: the corrections are 2 µs and
+    8 µs. -/
+theorem C01_stale_entry_changes_correction :
+    (round { dflt with nPeer := 0 } { ref := [0, 0], peer := [] } { ref := [4000], peer := [] }).2 = 2000 ∧
+    (round { dflt with nPeer := 0 } { ref := [0, 12000], peer := [] } { ref := [4000], peer := [] }).2 = 8000 := by
+  decide +kernel
+
+/-- … BUT NEVER THE BOUND: whatever the two slices hold (any lengths, any int64 values — every
+    possible trace of every earlier round), the correction of the round is within the cap; in
+    particular two histories that differ only in what failed sources left behind get corrections
+    that may differ but are both bounded. -/
+theorem C01_stale_entry_never_changes_bound (c : Cfg) (ha : admissible c = true) (hW : WF c.refImpact)
+    (h62 : toRat (peerCap c) < ((2^62 : Int) : Rat)) (st st' : State) (i : RoundInput) :
+    FBound (peerCap c) (round c st i).2 ∧ FBound (peerCap c) (round c st' i).2 :=
+  ⟨C01_round_bound c ha hW h62 st i, C01_round_bound c ha hW h62 st' i⟩
+
+/-- History form: any two histories followed by the same round input — the last corrections of both
+    are within the cap, whatever the earlier rounds (failing, late, wild sources) left in the slices. -/
+theorem C01_history_prefix_never_changes_bound (c : Cfg) (ha : admissible c = true) (hW : WF c.refImpact)
+    (h62 : toRat (peerCap c) < ((2^62 : Int) : Rat)) (h h' : List RoundInput) (i : RoundInput) :
+    (∀ x ∈ runFrom c (init c) (h ++ [i]), FBound (peerCap c) x) ∧
+    (∀ x ∈ runFrom c (init c) (h' ++ [i]), FBound (peerCap c) x) :=
+  ⟨runFrom_forall c _ (fun st i => C01_round_bound c ha hW h62 st i) _ _,
+   runFrom_forall c _ (fun st i => C01_round_bound c ha hW h62 st i) _ _⟩
+
+/-- the two-round histories behind `C01_stale_entry_changes_correction`: round 1 both clocks
+    answer (0, 0) resp. (12 µs, 12 µs); round 2 one answers 4 µs, one fails. -/
+example :
+    runFrom { dflt with nPeer := 0 } (init { dflt with nPeer := 0 })
+      [{ ref := [0, 0], peer := [] }, { ref := [4000], peer := [] }] = [0, 2000] ∧
+    runFrom { dflt with nPeer := 0 } (init { dflt with nPeer := 0 })
+      [{ ref := [12000, 12000], peer := [] }, { ref := [4000], peer := [] }] = [12000, 8000] := by
+  decide +kernel
+
 /-- `len(refClkOffsets)` never changes (so `st.ref.isEmpty` is `len(refClks) == 0` forever) -/
 theorem C01_measure_length (ms succ : List Int64) : (Sync.measure ms succ).1.length = ms.length := by
   unfold Sync.measure
